@@ -436,6 +436,10 @@ class Check:
             }, indent=1, default=str))
             print(f"VIOLATION property={self.pid} replay={path.relative_to(VERIF)} no-failing-input-found")
             rc = 1
+        if rc == 0:
+            stale = replay_dir / f"{self.pid}_{self.tier}_{self.seed}.json"
+            if stale.exists():
+                stale.unlink()
         self.write_evidence(violations, sorted(printed))
         return rc
 
